@@ -204,3 +204,36 @@ Proof.
     match type of Hh with match ?t with _ => _ end = true => destruct t; try discriminate Hh; reflexivity end.
 Qed.
 
+
+(* a file whose last line has no final newline *)
+Lemma file_nonl_ok : forall (f : list cstmt) (l : list stmt) (sm : bool) (p : pos) (n : nat),
+  forallb cstmt_ok f = true -> line_ok l = true ->
+  40 * (csizes f + lsize l) + 60 <= n ->
+  p_file (parsers n) (flat_map tokens_c f ++ smalls_tokens l ++ (if sm then [semi] else []) ++ [(EOF, p)])
+  = Ok (flat_map flatten f ++ l).
+Proof.
+  induction f as [|c f IH]; intros l sm p n Hall Hl Hn.
+  - cbn [flat_map app]. destruct n as [|n]; [lia|]. rewrite un_file. unfold file_body.
+    pose proof (smalls_head l ((if sm then [semi] else []) ++ [(EOF, p)]) Hl) as Hh.
+    destruct n as [|n]; [lia|]. rewrite un_stmt. unfold stmt_body. cbv zeta.
+    pose proof (simple_line_eof_ok l sm p n Hl ltac:(cbn [csizes fold_right] in Hn; lia)) as Hline.
+    unfold line_head in Hh.
+    match type of Hh with match ?t with _ => _ end = true => destruct t; try discriminate Hh end;
+      rewrite Hline; rewrite un_file; unfold file_body; cbn [peek]; rewrite app_nil_r; reflexivity.
+  - rewrite csizes_cons in Hn. cbn [forallb] in Hall. apply andb_true_iff in Hall. destruct Hall as [Hc Hall].
+    pose proof (csize_pos c) as Hp.
+    destruct n as [|n]; [lia|]. rewrite un_file. unfold file_body.
+    cbn [flat_map]. rewrite <- !app_assoc.
+    set (rest := flat_map tokens_c f ++ smalls_tokens l ++ (if sm then [semi] else []) ++ [(EOF, p)]).
+    pose proof (tokens_c_head c rest Hc) as Hh.
+    assert (Hne : not_else (peek rest) = true).
+    { unfold rest. destruct f as [|c2 f].
+      - cbn [flat_map app]. apply stmt_head_not_else. apply line_head_stmt_head. apply smalls_head. assumption.
+      - cbn [forallb] in Hall. apply andb_true_iff in Hall. destruct Hall as [Hc2 _].
+        cbn [flat_map]. rewrite <- app_assoc. apply stmt_head_not_else. apply tokens_c_head. assumption. }
+    destruct (stmt_all (csize c)) as [Pc _].
+    rewrite (Pc c (le_n _) Hc) by (assumption || lia).
+    subst rest. rewrite IH; [|assumption|assumption|lia].
+    unfold stmt_head in Hh.
+    match type of Hh with match ?t with _ => _ end = true => destruct t; try discriminate Hh; reflexivity end.
+Qed.
